@@ -106,7 +106,7 @@ class RealServer:
     """The real start_server for one configuration, in its own thread.  The TLS contexts it builds get security
     level 0 applied (harness side) so that the implementation's own version floor is what is tested."""
 
-    def __init__(self, backend, cert_source, root, cert, material="ok", other=None):
+    def __init__(self, backend, cert_source, root, cert, material="ok", other=None, locations=None):
         self.port = free_port()
         self.listening = False
         kw = {}
@@ -122,6 +122,8 @@ class RealServer:
                             else "-----BEGIN CERTIFICATE-----\nbm90IGEgY2VydA==\n-----END CERTIFICATE-----\n")
                 self.badfile = bad
                 kw["keyfile" if material == "garbageKey" else "certfile"] = bad
+        if locations is not None:
+            kw["locations"] = locations
         self.cfg = ServerConfig(host="127.0.0.1", port=self.port, document_root=root, require_client_cert=(backend == "pyopenssl"), **kw)
         self.loop = asyncio.new_event_loop()
         self.err = None
